@@ -220,7 +220,7 @@ extern int mpt_data_convert_int16(const int16_t *from, MPT_TYPE(type) type, void
 			return sizeof(int64_t);
 		case 'f':
 			if (dest) *((float *) dest) = val;
-			return sizeof(int64_t);
+			return sizeof(float);
 		case 'd':
 			if (dest) *((double *) dest) = val;
 			return sizeof(double);
